@@ -30,7 +30,7 @@ def _body(fn_obj, first=None):
 def _whole(fn_obj, mk_tr, first=None, fall='0'):
     """Builder translating the whole body of a function / property with a fresh Tr."""
     def build():
-        return mk_tr().stmts(_body(fn_obj, first), fall)
+        return mk_tr().set_scope(fn_obj).stmts(_body(fn_obj, first), fall)
     return build
 
 
@@ -118,9 +118,8 @@ def gen_translated():
     # the buffers are parameters: a0, a1 = low, high byte of self; b0, b1 = low, high byte of rhs;
     # `self._buffer[:] = bytearray([lo, hi])` is the result lo + 256*hi; `raise OVERFLOW` is -OVERFLOW
     from pcbasic.basic.base import error as _error
-    bufs = {'bytearray(self._buffer)[0]': 'a0', 'bytearray(self._buffer)[1]': 'a1',
-            'bytearray(self._buffer)[-1]': 'a1', 'bytearray(rhs._buffer)[0]': 'b0',
-            'bytearray(rhs._buffer)[1]': 'b1', 'bytearray(rhs._buffer)[-1]': 'b1'}
+    # the two-byte views are tuple-valued: subscripts and local aliases (`buf = bytearray(self._buffer)`) resolve to them
+    bufs = {'bytearray(self._buffer)': ['a0', 'a1'], 'bytearray(rhs._buffer)': ['b0', 'b1']}
     ovf = {'raise error.BASICError(error.OVERFLOW)': '(%d : Int)' % -_error.OVERFLOW}
 
     def store_hook(tr, st, rest, result):
